@@ -6,7 +6,16 @@ pub struct SequenceEqual<'a, Item>
 where
   Item: Clone + Send + Sync,
 {
-  zip_op: operators::Zip<'a, Item>,
+  // every sequence is compared together with its end: `Some(item)`* then `None`, so that a
+  // sequence which is a proper prefix of another one differs from it at the shorter one's end
+  zip_op: operators::Zip<'a, Option<Item>>,
+}
+
+fn with_end<'a, Item>(o: &Observable<'a, Item>) -> Observable<'a, Option<Item>>
+where
+  Item: Clone + Send + Sync,
+{
+  o.map(|x| Some(x)).concat(&[observables::just(None)])
 }
 
 impl<'a, Item> SequenceEqual<'a, Item>
@@ -14,7 +23,11 @@ where
   Item: Clone + Send + Sync + PartialEq,
 {
   pub fn new(observables: &[Observable<'a, Item>]) -> SequenceEqual<'a, Item> {
-    SequenceEqual { zip_op: operators::Zip::new(observables) }
+    SequenceEqual {
+      zip_op: operators::Zip::new(
+        &observables.iter().map(|o| with_end(o)).collect::<Vec<_>>(),
+      ),
+    }
   }
   pub fn execute(&self, source: Observable<'a, Item>) -> Observable<'a, bool> {
     let zip_op = self.zip_op.clone();
@@ -28,8 +41,8 @@ where
       let sctl_error = sctl.clone();
       let sctl_complete = sctl.clone();
 
-      zip_op.execute(source).inner_subscribe(sctl.new_observer(
-        move |serial, x: Vec<Item>| {
+      zip_op.execute(with_end(&source)).inner_subscribe(sctl.new_observer(
+        move |serial, x: Vec<Option<Item>>| {
           let check = x.get(0).unwrap();
           if !x.iter().all(|i| i == check) {
             sctl_next.upstream_abort_observe(&serial);
